@@ -374,7 +374,35 @@ def workarray_drivers_fail(case):
     return None
 
 
+def empty_output_fails(case):
+    """programs R^N -> R^0 (an empty selection / a product with a matrix without rows): jacobian is the empty (0, N) array, for a
+    plain point and for a Taylor-polynomial point, jac_vec the empty vector, vec_jac zero -- and the graph stays usable"""
+    rec, pt = np.array(case['rec']), np.array(case['pt'])
+    N = rec.size
+    cg = algopy.CGraph()
+    fx = algopy.Function(rec.copy())
+    fy = algopy.dot(np.zeros((0, N)), fx * fx) if case['prog'] == 'dot' else fx[N:] * 2.0
+    cg.trace_off()
+    cg.independentFunctionList = [fx]
+    cg.dependentFunctionList = [fy]
+    try:
+        J = np.asarray(cg.jacobian(pt.copy()))
+        c0 = np.zeros((2, 1, N))
+        c0[0, 0], c0[1, 0] = pt, 1.0
+        JU = cg.jacobian(UTPM(c0))
+        jv = np.asarray(cg.jac_vec(pt.copy(), np.ones(N)))
+        vj = np.asarray(cg.vec_jac(np.zeros(0), pt.copy()))
+    except Exception as ex:
+        return 'empty-output-exception: a driver raised %s for a program with an empty value (%s)' % (type(ex).__name__ + ':' + str(ex)[:60], case['prog'])
+    if J.shape != (0, N) or JU.data.shape != (2, 1, 0, N) or jv.shape != (0,) or vj.shape != (N,) or np.any(vj != 0):
+        return 'empty-output-shape: jacobian %s (expected (0, %d)), jacobian(UTPM) %s, jac_vec %s, vec_jac %s for a program with an empty value' % (
+            J.shape, N, JU.data.shape, jv.shape, vj.tolist())
+    return None
+
+
 def replay_case(ctx, case):
+    if case.get('op') == 'empty-output':
+        return empty_output_fails(case)
     if case.get('op') == 'workarray-drivers':
         return workarray_drivers_fail(case)
     if case.get('op') == 'svd-point':
@@ -415,6 +443,13 @@ def run(ctx):
         ctx.evaluations += 1
         ctx.count('svd-at-repeated-singular-values')
         f = svd_point_fails(case)
+        if f:
+            ctx.report(case, 'failure', f)
+    for prog_ in ('dot', 'slice'):
+        case = {'op': 'empty-output', 'prog': prog_, 'rec': rand_coeffs(rng, (3,), -2, 2), 'pt': rand_coeffs(rng, (3,), -2, 2)}
+        ctx.evaluations += 1
+        ctx.count('empty-output')
+        f = empty_output_fails(case)
         if f:
             ctx.report(case, 'failure', f)
     for view in (False, True):
